@@ -1,15 +1,16 @@
 """C14 - see properties.jsonl; DESIGN.md section 5."""
 from ._generic import run_property
 
-EXPLANATION = 'Bounded stand-in: opening lists/directories/globs of files and merge(): rows == concatenation in order, counts, partition columns, categorical labels, schema verification.'
+EXPLANATION = 'Mixed. P: util.metadata_from_many (legacy and footer-gathering path, symbolic number of files; structure only) and util._get_fmd on the byte-file model: the result row-group list is the concatenation in file-list order (file / row-group loop invariants), every chunk gets its relative path, num_rows is the sum over the returned row groups, verify_schema raises when schemas differ, the fetched tail / piece holds the whole footer, _get_fmd parses exactly the footer bytes; refuted obligations are known findings; string plumbing, fs.cat and ParquetFile() are assumed contracts. B (labelled bounded): opening lists/directories/globs of files and merge(): rows == concatenation in order, counts, partition columns, categorical labels, schema verification.'
 
 
 def p_parts():
-    return []
+    from ._many import p_many
+    return [p_many]
 
 
 def run(ctx):
-    return run_property(ctx, 'exploration', EXPLANATION, p_parts=p_parts(), b_modules=['c14_many_files'],
+    return run_property(ctx, 'other', EXPLANATION, p_parts=p_parts(), b_modules=['c14_many_files'],
                         assumptions=["pandas / numpy / cramjam behaviour inside every opaque value",
                                      "the oracle (plain pandas / the spec library under /verif/spec) is a faithful reading of the property"],
                         trusted=["bounded layer: enumerated inputs only; nothing outside the stated bound is covered"])
